@@ -73,8 +73,60 @@ class _Script:
         return (0, "request_scrypt_input", self.nonce)
 
 
+class _ThreadProcess:
+    """stands in for multiprocessing.Process: the REAL miner loop (mining.run_miner -> Miner.__call__) runs in a daemon thread
+    of this interpreter, talking to the watcher through real queues"""
+
+    def __init__(self, target=None, args=(), daemon=True, **kw):
+        import threading
+        self.t = threading.Thread(target=self._run, args=(target, args), daemon=True)
+
+    @staticmethod
+    def _run(target, args):
+        try:
+            target(*args)
+        except BaseException:
+            pass                                   # the poison message makes the miner exit(1); the watcher's own errors are observed elsewhere
+
+    def start(self):
+        self.t.start()
+
+    def join(self):
+        self.t.join(2)
+
+
+class _StopQueue:
+    """the watcher's receive queue when the real miner loop runs: a real queue; the operator presses Ctrl-C once `finds` blocks
+    were found or nothing arrived for a while (the miner loop died)"""
+
+    def __init__(self, session, finds, max_messages=400_000):
+        import queue
+        self.q = queue.Queue()
+        self.s, self.finds, self.n, self.max = session, finds, 0, max_messages
+
+    def put(self, x):
+        self.q.put(x)
+
+    def get(self):
+        import queue
+        self.s.observe()
+        self.n += 1
+        if self.n % 100 == 0:
+            self.s.simnet.CLOCK.now += 1                  # the clock moves on while the miner works
+        if self.s.found >= self.finds or self.n > self.max:
+            raise KeyboardInterrupt()
+        try:
+            return self.q.get(timeout=20)
+        except queue.Empty:
+            self.s.stalled = True
+            raise KeyboardInterrupt()
+
+
 class Session:
-    def __init__(self, MI, C, simnet, node, finds, nonce0, fault=None):
+    def __init__(self, MI, C, simnet, node, finds, nonce0, fault=None, real_miner=False):
+        self.real_miner = real_miner
+        self.stalled = False
+        self.output = ""
         self.MI, self.C, self.simnet, self.node = MI, C, simnet, node
         self.handed = []            # keys the watcher held as "the key to pay to", in order of first appearance
         self.found = 0
@@ -106,7 +158,7 @@ class Session:
             freshness = 10 ** 12
             dont_listen = True
         mw.args = A()
-        mw.recv_queue = self.script
+        mw.recv_queue = _StopQueue(self, self.script.finds) if self.real_miner else self.script
         mw.send_queues = []
         mw.processes = []
         mw.hash_stats = {}
@@ -139,14 +191,30 @@ class Session:
         MI.read_chain_from_disk = lambda: node.cm.coinstate
         MI.start_networking_peer_in_background = lambda args, cs: nt
         MI.wait_for_fresh_chain = lambda *a, **k: None
-        MI.Process = _Process
-        MI.Queue = _Q
+        MI.Process = _ThreadProcess if self.real_miner else _Process
+        if self.real_miner:
+            import queue
+            import random as _random
+            MI.Queue = queue.Queue
+            if hasattr(MI, "random"):
+                saved["random"] = MI.random
+                MI.random = _random.Random(self.script.nonce)          # the miner's starting nonce is drawn from the case, not from the OS
+        else:
+            MI.Queue = _Q
         MI.MAX_KNOWN_HASH_HEIGHT = -1
         MI.time = lambda: self.simnet.CLOCK.now
         disk.save_block, disk.flush_blocks = faulty("save_block"), faulty("flush_blocks")
+        import io
+        import sys
         try:
-            with env.quiet():
+            old_stdout, sys.stdout = sys.stdout, io.StringIO()
+            try:
                 mw()
+            finally:
+                self.output, sys.stdout = sys.stdout.getvalue(), old_stdout
+                for q in list(getattr(mw, "send_queues", [])):
+                    if self.real_miner:
+                        q.put(("stop", None))          # the miner loop exits on an unexpected message
         except SystemExit as e:
             self.raised = e
         except Exception as e:          # the watcher's loop catches everything; an exception here left __call__ itself
